@@ -11,8 +11,11 @@ package c20
 
 import (
 	"fmt"
+	"log/slog"
 	"net"
+	"os"
 	"runtime"
+	"strings"
 	"testing"
 	"time"
 
@@ -134,6 +137,14 @@ func run(e *core.Env) {
 	tp := e.Tape
 	e.StartClock()
 	node.CaptureStderr()
+	if p := os.Getenv("VERIF_SLOG"); p != "" && e.Trace {
+		// looking closer at one replay: the routers' own log at debug level
+		if lf, err := os.Create(p); err == nil {
+			old := slog.Default()
+			slog.SetDefault(slog.New(slog.NewTextHandler(lf, &slog.HandlerOptions{Level: slog.LevelDebug})))
+			e.Cleanup(func() { slog.SetDefault(old); _ = lf.Close() })
+		}
+	}
 	cn := simnet.NewConnNet(e)
 	// The shipped TCP peering protocol runs on a simulated loopback interface (peering/ is
 	// compiled against simtcp instead of net). One connection attempt takes 2..60 simulated
@@ -341,8 +352,36 @@ func run(e *core.Env) {
 			x := running[i]
 			var ok bool
 			if !early && tp.Chance(1, 2) {
-				if e.Guard("panic-in-Stop", func() { ok = x.in.Stop() }) {
-					e.Fail("", "")
+				// Stop in a quiet mesh: nobody pings, but the network goes on delivering what is
+				// in flight. (A Stop during which nothing is delivered at all leaves a handshake
+				// that a peer's re-dial has just begun without its next message for as long as
+				// the Stop lasts - one minute of patience, then "false": my network standing
+				// still, not the router's fault; DESIGN 10.4 no. 36.)
+				qdone := make(chan struct{})
+				var qpan any
+				go func() {
+					defer func() {
+						qpan = recover()
+						close(qdone)
+					}()
+					ok = x.in.Stop()
+				}()
+				for k, fin := 0, false; k < 4000 && !fin; k++ {
+					cn.RunFor(tp, 50*time.Millisecond, 2000)
+					select {
+					case <-qdone:
+						fin = true
+					default:
+					}
+				}
+				simnet.Wait()
+				select {
+				case <-qdone:
+				default:
+					e.Fail("stop-does-not-return", "cycle %d: Stop of instance r%d did not return within 200 simulated seconds in a quiet mesh", cyc, i)
+				}
+				if qpan != nil {
+					e.Fail("panic-in-Stop:unknown", "Stop panicked: %v", qpan)
 				}
 			} else {
 				// Stop while the network keeps delivering and the peers keep pinging.
@@ -437,7 +476,7 @@ func run(e *core.Env) {
 						if down {
 							for _, l := range x.in.Peering().GetLinks() {
 								if !linksBefore[l.RemoteAddr().String()] && !l.IsClosing() {
-									stalledPeers = true
+									stalledPeers = os.Getenv("VERIF_C20_NOSTALL") == ""
 									e.Probe("link_registered_after_the_stop_looked_then_peers_stall")
 								}
 							}
@@ -485,6 +524,16 @@ func run(e *core.Env) {
 			}
 			x.up = false
 			if !ok {
+				if e.Trace {
+					buf := make([]byte, 1<<20)
+					buf = buf[:runtime.Stack(buf, true)]
+					for _, blk := range strings.Split(string(buf), "\n\n") {
+						if strings.Contains(blk, "mycoria/mycoria") && !strings.Contains(blk, "mycoverif/checks") {
+							lines := strings.Split(blk, "\n")
+							e.Tracef("left: %s", strings.Join(lines[:min(len(lines), 12)], " | "))
+						}
+					}
+				}
 				e.Fail("stop-reports-failure", "cycle %d: Stop of instance r%d returned false", cyc, i)
 			}
 			e.Fault("peer_stop")
